@@ -20,9 +20,10 @@ from ..worker import _lift_limits
 
 LEVEL = "exploration"
 RULE = ("cases = op scripts of five classes: EL (1-40 ops over post / wakeup / wait(0) / k threads posting n each behind a barrier / post while blocked), "
-        "Q1 (capacity 1-8, message size 1-32, every policy, 1-60 enqueue / dequeue / clear / stats / full-empty ops), QB (1-5 writers blocked on a full BLOCK_WRITER queue of capacity 1-6, then drain / clear + drain / clear + enqueue + drain), QT (1-4 producers x 20-400 messages, "
+        "Q1 (capacity 1-8, message size 1-32, every policy, 1-60 enqueue / dequeue / clear / stats / full-empty ops), QB (1-5 writers blocked on a full BLOCK_WRITER queue of capacity 1-6, then drain / clear + drain / clear + a further writer + drain), QT (1-4 producers x 20-400 messages, "
         "capacity 1-16, each policy, seeded yields, one consumer), WK (4 worker procedure kinds x delay before stop 0-20 ms x stop or not x join timeout "
-        "{0, 5, 50, 300, infinite}), TM (interval 1-20 ms x run 0-60 ms x 0-3 restarts); thorough adds a ThreadSanitizer pass over the threaded classes. "
+        "{0, 5, 50, 300, infinite}), TM (interval 1-20 ms x run 0-60 ms x 0-3 restarts); both tiers run the threaded classes again under ThreadSanitizer, and DS: the whole driver (lpcvm, TSan build) with its real heart-beat timer thread at a 20 ms "
+        "interval - and in console mode the console worker thread - while heart beats run and commands from a connection and the console are served. "
         "non-trivial = >= 2 posts between two waits, or the queue reached full, or join issued within 1 ms of create; distinct = script text")
 ASSUMPTIONS = ["completion keys are non-zero 31-bit values and data 31-bit values (key 0 marks a wake-up; the record format carries 32 bits each)",
                "at most 2000 notifications are pending at once (the notification channel is finite; a refused post returns -1 and is not counted as posted)",
@@ -382,6 +383,57 @@ def evaluate_case(ctx, chk, case):
     return None, feats
 
 
+# ------------------------------------------------------------------ driver session under ThreadSanitizer
+HB_OBJ = 'int n; void create() { set_heart_beat(1); } void heart_beat() { n++; } int q() { return n; }\n'
+
+
+def driver_session(ctx, console):
+    """the whole driver with its real heart-beat timer thread (20 ms interval) and, in console mode, the console worker thread, under
+    ThreadSanitizer: ticks arrive while commands are served. No report may name repository code; the heart beat must have run."""
+    from ..worker import Worker
+    os.environ["VERIF_REAL_TIMER"] = "1"
+    try:
+        w = Worker(ctx.scratch("ds-console" if console else "ds-net"), timeout=90, flavour="tsan", console=console,
+                   mudlib_files={"t/hb.c": HB_OBJ}, ports=["4000:telnet"])
+    finally:
+        os.environ.pop("VERIF_REAL_TIMER", None)
+    try:
+        steps = [["load", "t/hb.c"], ["backend", "console"] if console else ["backend"]]
+        for i in range(30):
+            steps += [["sleepms", "15"], ["cycle"]]
+        steps += [["connect", "u0", "0"], ["cycle", "2"]]
+        for i in range(10):
+            steps += [["send", "u0", "look %d\r\n" % i], ["sleepms", "10"], ["cycle", "2"]]
+            if console:
+                steps += [["console", "say %d\n" % i], ["sleepms", "10"], ["cycle", "2"]]
+        steps += [["call", "t/hb", "q"]]
+        qi = len(steps) - 1
+        steps += [["close", "u0"], ["cycle", "2"], ["endbackend"]]
+        res = w.run(steps)
+    finally:
+        w.close()
+    name = "driver-session:" + ("console" if console else "network")
+    if res.timed_out:
+        ctx.inconclusive["driver-session-timeout"] += 1
+        return None
+    err = res.stderr
+    if "WARNING: ThreadSanitizer" in err:
+        blocks = err.split("WARNING: ThreadSanitizer")[1:]
+        for b in blocks:
+            frames = [l.strip() for l in b.splitlines() if l.strip().startswith("#") and ("/src/" in l or "/lib/" in l) and "/verif/" not in l]
+            if frames:
+                where = frames[0].split(" in ")[-1] if " in " in frames[0] else frames[0]
+                return ("tsan:%s:%s" % (name, " ".join(where.split()[:2])[:90]), "WARNING: ThreadSanitizer" + b[:4000])
+    cr = res.crash()
+    if cr and "ThreadSanitizer" not in cr[2][:200]:
+        return ("crash:%s:%s" % (name, cr[1][:60]), cr[2][:3000])
+    r = res.step(qi) or {}
+    if r.get("st") != "val" or not isinstance(r.get("v"), int) or r["v"] < 3:
+        return ("driver-session-no-heart-beat", "%s: heart beats counted: %r (the real timer should have ticked about 40 times)" % (name, r))
+    ctx.case_done(name, ["kind:DS", "flavour:tsan", "threads"], sample=name + " heart beats %r" % r.get("v"))
+    return None
+
+
 _chk = {}
 
 
@@ -429,11 +481,21 @@ def shard_main(ctx):
         runner.run_hypothesis(ctx, test, n)
         if not ctx.failures:
             runner.run_hypothesis(ctx, test_tsan, tsan_n)
+        # the full driver with its real timer (and console worker) threads under TSan: shards 0 and 1 (quick), 0-7 alternating (thorough)
+        if not ctx.failures and ctx.shard < (2 if ctx.tier == "quick" else 8):
+            for rep in range(1 if ctx.tier == "quick" else 5):
+                f = driver_session(ctx, console=bool(ctx.shard % 2))
+                if f:
+                    ctx.evaluations += 1
+                    ctx.failures.append(dict(sig=f[0], case=dict(kind="DS", console=bool(ctx.shard % 2)), detail=f[1]))
+                    break
     finally:
         close_all(ctx)
 
 
 def replay(ctx, case):
+    if case.get("kind") == "DS":
+        return driver_session(ctx, case.get("console", False))
     try:
         f, _ = evaluate_case(ctx, get_checker(ctx, case.get("flavour", "asan")), case)
         return f
